@@ -1,12 +1,19 @@
 """C11 Data uploaded once is deduplicated by every later session."""
-from checks import up_common
+import json
+
+from checks import sm_common, up_common
 
 PROPS = ["C11"]
 
 
 def check(ctx):
+    # the shard manager at lock granularity: a record that was added is in the memory shard or in a shard file at every
+    # moment of every interleaving of add / flush (two critical sections) / register, and is found again afterwards
+    sm_common.run(ctx)
     up_common.run_all(ctx, PROPS, faults=1)
 
 
 def replay(ctx, path):
+    if json.loads(open(path).readline()).get("ev") == "SmSetup":
+        return 0 if sm_common.validate(ctx, path, "replay") else 1
     return 0 if up_common.validate(ctx, path, "replay", PROPS) else 1
